@@ -333,3 +333,69 @@ sl_harness! {
         core::mem::forget(txs); core::mem::forget(st);
     }
 }
+
+// ---- Lemmas for the composition used by the denied-amount harnesses -------
+// (delta_list.rs): for the two histories those harnesses use, the scan returns
+// exactly the specification value that they substitute for it.
+sl_harness! {
+    #[kani::unwind(5)]
+    fn c02_lemma_buy_sale() {
+        // Buy(default, x) 5 days before the loss sale of n by default
+        let x = any_in(1, SH_MAX); let b0 = any_in(0, SH_MAX); let n = any_in(1, SH_MAX);
+        let bd = b0 + x;
+        ks::assume(n <= bd);
+        let st = state_before_sale(bd, None, None);
+        let txs = vec![a_buy(0, x, SALE_DAY - 5, 0), a_sale(0, n, 1)];
+        let r = get_superficial_loss_ratio(1, &txs, &st);
+        let held = bd - n;
+        match r {
+            Ok(Some(rr)) => {
+                vcover!("superficial");
+                assert!(held > 0);
+                assert!(*rr.sfl_ratio.numerator == dec(min3(n, x, held), 0) && *rr.sfl_ratio.denominator == dec(n, 0));
+                assert!(rr.acb_adjust_affiliate_ratios.len() == 1);
+                let p = rr.acb_adjust_affiliate_ratios.get(&aff(0)).unwrap();
+                assert!(*p.numerator == dec(held, 0) && *p.denominator == dec(held, 0));
+                assert!(!rr.fewer_remaining_shares_than_sfl_shares);
+                core::mem::forget(rr);
+            }
+            Ok(None) => { vcover!("not superficial"); assert!(held == 0); }
+            Err(_) => assert!(false, "rejected"),
+        }
+        core::mem::forget(txs); core::mem::forget(st);
+    }
+}
+
+sl_harness! {
+    #[kani::unwind(6)]
+    fn c03_lemma_buy_buy_sale_sell() {
+        // Buy(default, x) day -9, Buy(b, y) day -5, loss sale of n by default, Sell(b, z) day +3
+        let x = any_in(1, 7); let y = any_in(1, 7);
+        let b0 = any_in(0, 7); let bb0 = any_in(0, 7);
+        let n = any_in(1, 7); let z = any_in(1, 14);
+        let bd = b0 + x; let bb = bb0 + y;
+        ks::assume(n <= bd && z <= bb);
+        let st = state_before_sale(bd, Some(bb), None);
+        let txs = vec![a_buy(0, x, SALE_DAY - 9, 0), a_buy(1, y, SALE_DAY - 5, 1), a_sale(0, n, 2), a_sell(1, z, SALE_DAY + 3, 3)];
+        let r = get_superficial_loss_ratio(2, &txs, &st);
+        let hd = bd - n; let hb = bb - z; let held = hd + hb;
+        match r {
+            Ok(Some(rr)) => {
+                vcover!("superficial");
+                assert!(held > 0);
+                assert!(*rr.sfl_ratio.numerator == dec(min3(n, x + y, held), 0) && *rr.sfl_ratio.denominator == dec(n, 0));
+                // both affiliates are buyers: portions h_k / (h_d + h_b), zero holdings included
+                assert!(rr.acb_adjust_affiliate_ratios.len() == 2);
+                let pd = rr.acb_adjust_affiliate_ratios.get(&aff(0)).unwrap();
+                let pb = rr.acb_adjust_affiliate_ratios.get(&aff(1)).unwrap();
+                assert!(*pd.numerator == dec(hd, 0) && *pd.denominator == dec(held, 0));
+                assert!(*pb.numerator == dec(hb, 0) && *pb.denominator == dec(held, 0));
+                assert!(!rr.fewer_remaining_shares_than_sfl_shares);
+                core::mem::forget(rr);
+            }
+            Ok(None) => { vcover!("not superficial"); assert!(held == 0); }
+            Err(_) => assert!(false, "rejected"),
+        }
+        core::mem::forget(txs); core::mem::forget(st);
+    }
+}
